@@ -86,6 +86,9 @@ struct RunnerBase {
     virtual void observe(std::ostream& os, const std::string& pfx) = 0;   // re-take call observations without update
     virtual void lookup(std::ostream& os, const std::string& pfx, int num) = 0;
     virtual void textgen(std::ostream& os, const std::string& pfx) {}     // offsets / codec (only some policies)
+    virtual void callx(std::ostream& os, const std::string& pfx, int mi, const std::vector<int>& nums) = 0;  // real call with arbitrary (possibly unregistered) dynamic ids
+    virtual void mkvptr(std::ostream& os, const std::string& pfx, int num) = 0;    // virtual_ptr<Obj>(obj of dynamic id num): route 'from base reference'
+    virtual void sethandler(std::ostream& os, const std::string& pfx, const std::string& which) = 0;
     std::string idmode = "small";
     bool deferred = false;
 };
@@ -401,6 +404,48 @@ struct Runner : RunnerBase {
                 auto vp = P::dynamic_vptr(o);
                 os << pfx << "lookup " << n << " = " << (vp == svp[rep(n)] ? "ok" : "WRONG") << "\n";
             } catch (Caught& c) { os << pfx << "lookup " << n << " = error " << c.what << "\n"; }
+        }
+    }
+
+    void callx(std::ostream& os, const std::string& pfx, int mi, const std::vector<int>& nums) override {
+        auto m = methods.at(mi);
+        std::ostringstream tup; for (int n : nums) tup << " " << n;
+        if (m->slot < 0 || !m->live) { os << pfx << "callx " << mi << tup.str() << " = no-real-method\n"; return; }
+        std::vector<std::unique_ptr<Obj>> objs; std::vector<Obj*> ptrs;
+        for (int n : nums) { objs.emplace_back(new Obj(g_real_id[n])); ptrs.push_back(objs.back().get()); }
+        os << pfx << "callx " << mi << tup.str() << " =";
+        g_call_error.clear();
+        try {
+            int r = slots[m->slot].call(ptrs.data());
+            auto ds = live_defs(m); int which = -1;
+            for (std::size_t i = 0; i < ds.size(); ++i) if (ds[i]->pool == r) which = (int)i;
+            os << " ran d" << which;
+        } catch (Caught& c) { os << " error " << c.what; }
+        catch (resolution_error& e) { os << " threw resolution_error status " << (int)e.status << " arity " << e.arity << " types"; for (std::size_t i = 0; i < e.arity && i < 16; ++i) os << " " << num_of(e.types[i]); }
+        catch (unknown_class_error& e) { os << " threw unknown_class " << num_of(e.type); }
+        os << "\n";
+    }
+
+    void mkvptr(std::ostream& os, const std::string& pfx, int num) override {
+        Obj o(g_real_id[num]);
+        auto rep = [](int n) { auto it = g_alias.find(g_real_id[n]); return it == g_alias.end() ? n : num_of(it->second); };
+        os << pfx << "mkvptr " << num << " =";
+        try {
+            virtual_ptr<Obj, P> p(o);
+            auto want = svp.count(rep(num)) ? svp[rep(num)] : nullptr;
+            os << (p._vptr() == want ? " ok" : (p._vptr() == nullptr ? " null" : " WRONG")) << (&*p == &o ? "" : " WRONG-OBJECT");
+        } catch (Caught& c) { os << " error " << c.what; }
+        catch (unknown_class_error& e) { os << " threw unknown_class " << num_of(e.type); }
+        os << "\n";
+    }
+
+    void sethandler(std::ostream& os, const std::string& pfx, const std::string& which) override {
+        if constexpr (std::is_assignable_v<decltype((P::error)), error_handler_type>) {
+            if (which == "alt") P::error = [](const error_type& e) { throw Caught{"ALT " + describe_error(e)}; };
+            else P::error = throwing_handler;
+            os << pfx << "sethandler " << which << " ok\n";
+        } else {
+            os << pfx << "sethandler " << which << " not-settable\n";
         }
     }
 
